@@ -1,5 +1,6 @@
 """C09 — the cursor always designates an existing row inside the viewport (src/selection.rs)."""
 ID = "C09"
+EXTRA_PROPS = ["CursorFnsTables"]   # the integer cores of the cursor as TRANSLATED from src/selection.rs = the model's functions (Props/CursorFnsTables.lean)
 N_QUICK, N_THOROUGH = 6000, 400000
 STRICT_MODEL = True
 RULE = ("random histories (<= 60 events, a few up to 200) over {up/down(k), page-up/down(k), half-page-up/down(k), click on row r, "
